@@ -620,7 +620,7 @@ def shapes(tier):
             if tier == "quick" and cal == "delta" and variant not in ("plain", "workers"):
                 continue
             out.append(solution_shape(variant, cal))
-    for variant in ("workers", "cumulative"):
+    for variant in (("workers", "cumulative") if tier == "thorough" else ("workers",)):
         out.append(twice_shape(variant))
     for variant in ("scheduled", "b_unscheduled", "cumulative"):
         for di in range(len(DELTAS)):
